@@ -25,8 +25,8 @@ ASSUMPTIONS = ["no trailing-slash spellings, no symlinks, no '//' at the very st
 WDS = ["", "sub", "sub/deep", "other"]
 
 
-QUICK_BUDGET = {"cases": 4000, "deadline_s": 170, "case_timeout_s": 60, "floors": {"lib_graphs": 3779, "cli_info": 140, "edges_checked": 20000}}
-THOROUGH_FACTOR = 40  # thorough = the same workload with 40x the cases (floors scale along)
+QUICK_BUDGET = {"cases": 8000, "deadline_s": 170, "case_timeout_s": 60, "floors": {"lib_graphs": 7558, "cli_info": 280, "edges_checked": 40000}}
+THOROUGH_FACTOR = 20  # thorough = the same workload with 20x the cases (floors scale along)
 
 
 def budget(tier):
